@@ -18,6 +18,11 @@ CONSTANTS Q,        \* lattice units per cell
           MaxC      \* lattice coordinates are 0..MaxC
 
 Coord == 0..MaxC
+\* Array forms in which a caller may hand over an integrated variable.  The share a piece receives is a
+\* property of the geometry alone: it is the same for every integrated variable of a trajectory, whatever
+\* its form, and the pieces of a whole-number variable are fractions, never rounded.  The harness hands
+\* over one variable per form with every segment, chain and antimeridian case.
+VarForms == {"float64", "int64"}
 \* cell index of a rational coordinate x: the k with kQ < x <= (k+1)Q
 CellOf(x) == LET n == x[1]  d == x[2] * Q          \* x / Q = n / d
                  fl == IF n >= 0 THEN n \div d ELSE -((-n + d - 1) \div d)   \* floor
